@@ -85,6 +85,7 @@ type State struct {
 	condCache map[string]bool
 	charset  map[string]string
 	preds    []predUse
+	transcript []string // declarations and assertions of this path, for fallback solvers
 	predDecl map[string]bool
 	maxlen   map[string]int
 	minlen   map[string]int
@@ -146,7 +147,9 @@ func (st *State) store(p *PtrV, v Value) {
 // ---- solver interplay ----
 
 func (st *State) declare(name string, sort Sort, w int) {
-	st.E.Solver.Cmd(fmt.Sprintf("(declare-const %s %s)", name, sortName(sort, w)))
+	cmd := fmt.Sprintf("(declare-const %s %s)", name, sortName(sort, w))
+	st.E.Solver.Cmd(cmd)
+	st.transcript = append(st.transcript, cmd)
 	st.declared = append(st.declared, name)
 }
 
@@ -177,6 +180,7 @@ func (st *State) assertTerm(c *Term) {
 	}
 	st.pc = append(st.pc, c)
 	st.E.Solver.Cmd("(assert " + c.S + ")")
+	st.transcript = append(st.transcript, "(assert "+c.S+")")
 }
 
 // feasible asks whether pc ∧ c is satisfiable. Unknown counts as feasible
@@ -368,6 +372,15 @@ func (st *State) Assert(id string, c *Term) {
 		}
 		s.Pop()
 	}
+	if res != "sat" && res != "unsat" {
+		// primary solver gave up: ask the fallback solvers with the whole path condition
+		if r2 := st.fallbackCheck(q); r2 == "unsat" {
+			res = "unsat"
+			st.E.Stats.FallbackProved++
+		} else if r2 == "sat" {
+			st.E.noteInconclusive(id, "primary solver unknown, fallback solver found a counterexample that was not extracted")
+		}
+	}
 	switch res {
 	case "unsat":
 		rec.Proved++
@@ -417,4 +430,26 @@ func sortedKeys(m map[string]string) []string {
 	}
 	sort.Strings(ks)
 	return ks
+}
+
+// fallbackCheck re-discharges pc ∧ q with the other installed solvers.
+func (st *State) fallbackCheck(q *Term) string {
+	for _, name := range st.E.Fallbacks {
+		s := st.E.fallbackSolver(name)
+		if s == nil {
+			continue
+		}
+		s.Reset()
+		for _, c := range st.transcript {
+			s.Cmd(c)
+		}
+		if !q.Const {
+			s.Cmd("(assert " + q.S + ")")
+		}
+		r := s.Check()
+		if r == "sat" || r == "unsat" {
+			return r
+		}
+	}
+	return "unknown"
 }
